@@ -1,5 +1,6 @@
 """Second half of the translator: constructor IR, facade action lists, misc declarative code."""
 import ast
+import re
 
 
 EXN_NAMES = {"MissingBlocksizeException": "MissingBlocksize", "OpcodeException": "OpcodeException",
@@ -690,6 +691,156 @@ def gen_loops(mods):
     lines.append("Definition for_loops : list (string * string) := [%s].\n" % "; ".join(fors))
     lines.append("Definition unknown_loops : list string := [%s].\n" % "; ".join(coq_str(u) for u in unknown))
     return "\n".join(lines), dict(loops=loops, fors=fors, unknown=unknown)
+
+
+def gen_parsers(mods):
+    """the response decoders that are plain applications of decode_bits, and the fixed-stride descriptor lists:
+    which tables, which page codes, which header bytes / offsets / strides the code uses (fail-closed: a decoder that
+    is expected to have one of these shapes and does not is listed in unknown_parsers)"""
+    from translate import HEADER, coq_str, const_int
+    whole, lists, unknown = [], [], []
+    inq = dict(pre=[], std=[], vpd_pre=[], trunc="", flat=[], other=[])
+    disc = []
+
+    def enum_dict(stem, name):
+        for m in mods:
+            if m.stem == stem:
+                for n in m.tree.body:
+                    if isinstance(n, ast.Assign) and len(n.targets) == 1 and isinstance(n.targets[0], ast.Name) \
+                            and n.targets[0].id == name and isinstance(n.value, ast.Dict):
+                        return {k.value: const_int(v) for k, v in zip(n.value.keys, n.value.values) if isinstance(k, ast.Constant)}
+        return {}
+
+    VPD = enum_dict("scsi_enum_inquiry", "_vpds")
+    DIDT = enum_dict("scsi_enum_readdiscinformation", "disc_information_data_type")
+
+    def decode_call(st, clsqual, buf="data", res="result"):
+        """decode_bits(<buf>, cls.<T>, <res>) -> table qual or None"""
+        if isinstance(st, ast.Expr) and isinstance(st.value, ast.Call) and dotted(st.value.func) in ("decode_bits", "convert.decode_bits"):
+            a = st.value.args
+            if len(a) == 3 and isinstance(a[0], ast.Name) and a[0].id == buf and isinstance(a[2], ast.Name) and a[2].id == res \
+                    and isinstance(a[1], ast.Attribute) and isinstance(a[1].value, ast.Name) and a[1].value.id == "cls":
+                return "%s.%s" % (clsqual, a[1].attr)
+        return None
+
+    def is_return(st, res="result"):
+        return isinstance(st, ast.Return) and isinstance(st.value, ast.Name) and st.value.id == res
+
+    def strip_doc(body):
+        return [b for b in body if not (isinstance(b, ast.Expr) and isinstance(b.value, ast.Constant) and isinstance(b.value.value, str))]
+
+    for mod in mods:
+        if not mod.stem.startswith("scsi_cdb_"):
+            continue
+        for cls in [n for n in mod.tree.body if isinstance(n, ast.ClassDef)]:
+            clsqual = "%s.%s" % (mod.stem, cls.name)
+            for fn in [f for f in cls.body if isinstance(f, ast.FunctionDef) and f.name == "unmarshall_datain"]:
+                where = "%s.unmarshall_datain" % clsqual
+                body = strip_doc(fn.body)
+                # --- whole-buffer decoders: result = {}; decode_bits(data, cls.T, result)+; return result
+                if len(body) >= 3 and isinstance(body[0], ast.Assign) and isinstance(body[0].value, ast.Dict) and not body[0].value.keys \
+                        and is_return(body[-1]) and all(decode_call(b, clsqual) for b in body[1:-1]):
+                    whole.append((where, [decode_call(b, clsqual) for b in body[1:-1]]))
+                    continue
+                # --- fixed-stride lists:  X = data[S : scsi_ba_to_int(data[a:b]) + B]   while len(X): ... X = X[K:]
+                env = {}
+                for node in ast.walk(fn):
+                    if isinstance(node, ast.Assign) and len(node.targets) == 1 and isinstance(node.targets[0], ast.Name):
+                        env.setdefault(node.targets[0].id, []).append(node.value)
+                loops = [n for n in fn.body if isinstance(n, ast.While)]
+                if len(loops) == 1 and not any(isinstance(n, ast.While) for n in ast.walk(loops[0]) if n is not loops[0]):
+                    lp = loops[0]
+                    t = lp.test
+                    if isinstance(t, ast.Call) and dotted(t.func) == "len" and isinstance(t.args[0], ast.Name):
+                        lv = t.args[0].id
+                        inits = [v for v in env.get(lv, []) if isinstance(v, ast.Subscript) and isinstance(v.value, ast.Name)
+                                 and v.value.id == "data" and isinstance(v.slice, ast.Slice) and v.slice.upper is not None and v.slice.lower is not None]
+                        advs = [st.value for st in lp.body if isinstance(st, ast.Assign) and isinstance(st.targets[0], ast.Name) and st.targets[0].id == lv
+                                and isinstance(st.value, ast.Subscript) and isinstance(st.value.value, ast.Name) and st.value.value.id == lv
+                                and isinstance(st.value.slice, ast.Slice) and st.value.slice.upper is None]
+                        strides = [const_int(a.slice.lower) for a in advs]
+                        n_assign = sum(1 for n in ast.walk(lp) if isinstance(n, ast.Assign) and any(isinstance(tg, ast.Name) and tg.id == lv for tg in n.targets))
+                        if len(inits) == 1 and len(advs) == 1 and n_assign == 1 and strides[0] is not None:
+                            S = const_int(inits[0].slice.lower)
+                            up = inits[0].slice.upper
+                            lenexpr, B = None, None
+                            if isinstance(up, ast.BinOp) and isinstance(up.op, ast.Add):
+                                for x, y in ((up.left, up.right), (up.right, up.left)):
+                                    if const_int(y) is not None:
+                                        lenexpr, B = x, const_int(y)
+                            if isinstance(lenexpr, ast.Name) and len(env.get(lenexpr.id, [])) == 1:
+                                lenexpr = env[lenexpr.id][0]
+                            ab = None
+                            if isinstance(lenexpr, ast.Call) and dotted(lenexpr.func) in ("scsi_ba_to_int", "convert.scsi_ba_to_int") \
+                                    and isinstance(lenexpr.args[0], ast.Subscript) and isinstance(lenexpr.args[0].value, ast.Name) \
+                                    and lenexpr.args[0].value.id == "data" and isinstance(lenexpr.args[0].slice, ast.Slice):
+                                sl = lenexpr.args[0].slice
+                                a0 = 0 if sl.lower is None else const_int(sl.lower)
+                                b0 = const_int(sl.upper) if sl.upper is not None else None
+                                if a0 is not None and b0 is not None:
+                                    ab = (a0, b0)
+                            tabs = [decode_call(st, clsqual, buf=None, res=None) for st in lp.body] if False else []
+                            for st in lp.body:
+                                if isinstance(st, ast.Expr) and isinstance(st.value, ast.Call) and dotted(st.value.func) in ("decode_bits", "convert.decode_bits"):
+                                    a = st.value.args
+                                    if isinstance(a[1], ast.Attribute) and isinstance(a[1].value, ast.Name) and a[1].value.id == "cls":
+                                        tabs.append("%s.%s" % (clsqual, a[1].attr))
+                            if S is not None and B is not None and ab is not None:
+                                lists.append((where, S, ab[0], ab[1], B, strides[0], tabs[0] if tabs else ""))
+                                continue
+                # --- INQUIRY: dispatch on evpd / page code
+                if clsqual == "scsi_cdb_inquiry.Inquiry":
+                    phase = "pre"
+                    for st in body[1:]:
+                        t = decode_call(st, clsqual)
+                        if t and phase == "pre":
+                            inq["pre"].append(t)
+                        elif isinstance(st, ast.If) and ast.unparse(st.test) == "evpd == 0":
+                            ib = st.body
+                            if all(decode_call(b, clsqual) for b in ib[:-1]) and is_return(ib[-1]):
+                                inq["std"] = [decode_call(b, clsqual) for b in ib[:-1]]
+                            else:
+                                unknown.append("%s: evpd == 0 branch" % where)
+                            phase = "vpd"
+                        elif t and phase == "vpd":
+                            inq["vpd_pre"].append(t)
+                        elif isinstance(st, ast.Assign) and isinstance(st.targets[0], ast.Name) and st.targets[0].id == "data" and phase == "vpd":
+                            inq["trunc"] = ast.unparse(st.value)
+                        elif isinstance(st, ast.If) and phase == "vpd":
+                            m = re.match(r"result\['page_code'\] == cls\.VPD\.(\w+)$", ast.unparse(st.test))
+                            if not m or m.group(1) not in VPD:
+                                unknown.append("%s: if %s" % (where, ast.unparse(st.test)[:50]))
+                                continue
+                            ib = st.body
+                            if len(ib) == 2 and decode_call(ib[0], clsqual) and is_return(ib[1]):
+                                inq["flat"].append((VPD[m.group(1)], decode_call(ib[0], clsqual)))
+                            else:
+                                inq["other"].append((VPD[m.group(1)], m.group(1)))
+                        else:
+                            unknown.append("%s: %s" % (where, ast.unparse(st)[:50]))
+                    continue
+                # --- READ DISC INFORMATION: dispatch on data[2] >> 5
+                if clsqual == "scsi_cdb_readdiscinformation.ReadDiscInformation":
+                    for st in body[1:]:
+                        if isinstance(st, ast.If):
+                            m = re.match(r"data\[2\] >> 5 == cls\.DISC_INFORMATION_DATA_TYPE\.(\w+)$", ast.unparse(st.test))
+                            if m and m.group(1) in DIDT and decode_call(st.body[0], clsqual):
+                                disc.append((DIDT[m.group(1)], decode_call(st.body[0], clsqual)))
+                            else:
+                                unknown.append("%s: if %s" % (where, ast.unparse(st.test)[:50]))
+                    continue
+    sl = lambda xs: "[%s]" % "; ".join(coq_str(x) for x in xs)
+    lines = [HEADER.format(src="the unmarshall_datain functions of scsi_cdb_*.py (decoder skeletons)", extra=" Model.Parser")]
+    lines.append("Definition whole_parsers : list (string * list string) := [\n  %s].\n" % ";\n  ".join("(%s, %s)" % (coq_str(w), sl(t)) for w, t in whole))
+    lines.append("Definition list_parsers : list (string * (list_params * string)) := [\n  %s].\n" % ";\n  ".join(
+        "(%s, (mkLP %d %d %d %d %d, %s))" % (coq_str(w), S, a, b, B, k, coq_str(t)) for (w, S, a, b, B, k, t) in lists))
+    lines.append("Definition inquiry_pre : list string := %s.\nDefinition inquiry_std : list string := %s.\nDefinition inquiry_vpd_pre : list string := %s.\n"
+                 "Definition inquiry_vpd_trunc : string := %s.\n" % (sl(inq["pre"]), sl(inq["std"]), sl(inq["vpd_pre"]), coq_str(inq["trunc"])))
+    lines.append("Definition inquiry_vpd_flat : list (N * string) := [%s].\n" % "; ".join("(%d, %s)" % (v, coq_str(t)) for v, t in inq["flat"]))
+    lines.append("Definition inquiry_vpd_other : list (N * string) := [%s].\n" % "; ".join("(%d, %s)" % (v, coq_str(t)) for v, t in inq["other"]))
+    lines.append("Definition disc_info_dispatch : list (N * string) := [%s].\n" % "; ".join("(%d, %s)" % (v, coq_str(t)) for v, t in disc))
+    lines.append("Definition unknown_parsers : list string := %s.\n" % sl(unknown))
+    return "\n".join(lines), dict(whole=whole, lists=lists, inquiry=inq, disc=disc, unknown=unknown)
 
 
 def gen_footprint(mods):
